@@ -39,10 +39,11 @@ class PairTabulationFactory(object):
   
   """
 
-  def __init__(self, tabulation_target, tabulation_class):
+  def __init__(self, tabulation_target, tabulation_class, min_nr = 2):
     self.tabulation_target = tabulation_target
     self.tabulation_class = tabulation_class
     self.tabulation_type = "pair-potential"
+    self.min_nr = min_nr
 
   def _log_cutoffs(self, logger, r_cutoff, **kwargs):
     logger.info("  * cutoff: {}".format(r_cutoff.cutoff))
@@ -89,6 +90,10 @@ class PairTabulationFactory(object):
       logger.warning("nr not specified using a default of {}".format(nr))
     else:
       nr = cp.tabulation.nr
+
+    # The row spacing is cutoff/(nr-1), tables with fewer rows than this can't be tabulated.
+    if nr < self.min_nr:
+      raise ConfigurationException("[Tabulation] at least {} rows are required for a '{}' tabulation. Number of rows specified = {}".format(self.min_nr, self.tabulation_target, nr))
 
     return RCutoffTuple(cutoff, nr)
 
@@ -166,6 +171,11 @@ class EAMTabulationFactory(PairTabulationFactory):
       logger.warning("nrho not specified using a default of {}".format(nrho))
     else:
       nrho = cp.tabulation.nrho
+
+    # The density spacing is cutoff_rho/(nrho-1)
+    if nrho < 2:
+      raise ConfigurationException("[Tabulation] at least 2 density values (nrho) are required. Number specified = {}".format(nrho))
+
     return R_Rho_CutoffTuple(r_cutoff.cutoff, r_cutoff.nr, cutoff_rho, nrho)
 
   def _create_reference_data(self, cp):
@@ -213,6 +223,9 @@ class DLPOLY_PairTabulationFactory(PairTabulationFactory):
     cutoffs = super(DLPOLY_PairTabulationFactory, self).extract_cutoffs(cp)
     if cutoffs.nr % 4 != 0:
       raise ConfigurationException("The number of rows in a DL_POLY TABLE file needs to be divisible by 4. Number of rows specified = {} ".format(cutoffs.nr))
+    # The TABLE grid spacing is cutoff/(nr-4)
+    if cutoffs.nr <= 4:
+      raise ConfigurationException("A DL_POLY TABLE file needs more than 4 rows. Number of rows specified = {} ".format(cutoffs.nr))
     return cutoffs
 
 class ADP_EAMTabulationFactory(EAMTabulationFactory):
@@ -242,7 +255,7 @@ class ADP_EAMTabulationFactory(EAMTabulationFactory):
 
 """Target name to factory objects"""
 TABULATION_FACTORIES = {
-  "LAMMPS"       :  PairTabulationFactory("LAMMPS", LAMMPS_PairTabulation),
+  "LAMMPS"       :  PairTabulationFactory("LAMMPS", LAMMPS_PairTabulation, min_nr = 3),
   "DLPOLY"       :  DLPOLY_PairTabulationFactory("DLPOLY", DLPoly_PairTabulation),
   "GULP"         :  PairTabulationFactory("GULP", GULP_PairTabulation),
   "excel"        :  PairTabulationFactory("excel", Excel_PairTabulation),
